@@ -589,14 +589,14 @@ theorem contains_zero_iff (s : Bytes) : s.contains 0 = true ↔ ∃ t ∈ runes 
 
 /-- Quote fails exactly on the strings described by `codeFails`. -/
 theorem quote_fails_iff_codeFails (l : Lang) (s : Bytes) :
-    (∃ e, quote l s = .error e) ↔ codeFails l s = true := by
+    (∃ e, quoteCore l s = .error e) ↔ codeFails l s = true := by
   have hok := runes_ok s
   have hz := contains_zero_iff s
   simp only [codeFails, Bool.or_eq_true, Bool.and_eq_true, List.any_eq_true, decide_eq_true_eq,
     Bool.not_eq_true', gt_iff_lt]
   by_cases hs : s = []
-  · subst hs; simp [quote, runes_nil]
-  unfold quote
+  · subst hs; simp [quoteCore, runes_nil]
+  unfold quoteCore
   simp only [hs, ↓reduceIte]
   cases hsc : scan l (runes s) 0 false false with
   | error e =>
@@ -1607,20 +1607,20 @@ def WordShape (w : Word) : Prop :=
 /-- Whenever Quote succeeds, its result is read back by the parser as exactly one word of one of
     the four shapes, and `expand.Literal` of that word is the original string. -/
 theorem quote_roundtrip_main (l : Lang) (s q : Bytes) (hv : validLang l = true)
-    (h : quote l s = .ok q) :
+    (h : quoteCore l s = .ok q) :
     ∃ w, lexWords (resolve l) q = .ok [w] ∧ WordShape w ∧ expandLit w = .ok s := by
   have hok := runes_ok s
   have hj := runes_join s
   have hq27 : Clean ([0x27] : Bytes) := clean_ascii _ (by intro b m; simp at m; subst m; decide)
   by_cases hs : s = []
   · subst hs
-    simp only [quote, ↓reduceIte] at h
+    simp only [quoteCore, ↓reduceIte] at h
     cases h
     refine ⟨[.sgl false []], ?_, Or.inr (Or.inl ⟨_, rfl⟩), rfl⟩
     have hc : Clean ([0x27, 0x27] : Bytes) := Clean.append hq27 hq27
     rw [lexWords_clean _ hc]
     exact lexF_sgl _ 1 [] (by simp)
-  unfold quote at h
+  unfold quoteCore at h
   simp only [hs, ↓reduceIte] at h
   cases hsc : scan l (runes s) 0 false false with
   | error e => rw [hsc] at h; cases h
@@ -1835,7 +1835,7 @@ theorem dollar_error_at (l : Lang) : ∀ (ts : List Tok) (offs : Nat) (last : Bo
 
 /-- The reported byte offset is where the first offending rune (for the reported kind) starts:
     the decode steps split as `pre ++ t :: post`, `ByteOffset` is the total length of `pre`. -/
-theorem quote_error_at (l : Lang) (s : Bytes) (e : QErr) (h : quote l s = .error e) :
+theorem quote_error_at (l : Lang) (s : Bytes) (e : QErr) (h : quoteCore l s = .error e) :
     ∃ pre t post, runes s = pre ++ t :: post ∧ e.offs = (pre.flatMap Tok.raw).length ∧
       Offending l e.kind t ∧ ∀ t' ∈ pre, ¬ Offending l e.kind t' := by
   have hok := runes_ok s
@@ -1843,8 +1843,8 @@ theorem quote_error_at (l : Lang) (s : Bytes) (e : QErr) (h : quote l s = .error
     intro pre t post hr
     exact sizes_raw pre fun t' m => hok t' (by rw [hr]; exact List.mem_append_left _ m)
   by_cases hs : s = []
-  · subst hs; simp [quote] at h
-  unfold quote at h
+  · subst hs; simp [quoteCore] at h
+  unfold quoteCore at h
   simp only [hs, ↓reduceIte] at h
   cases hsc : scan l (runes s) 0 false false with
   | error e' =>
@@ -1878,6 +1878,56 @@ theorem quote_error_at (l : Lang) (s : Bytes) (e : QErr) (h : quote l s = .error
           obtain ⟨pre, t, post, e1, e2, e3, e4, e5⟩ := dollar_error_at l _ _ _ e hok hd
           refine ⟨pre, t, post, e1, by rw [e2, hsz pre t post e1]; simp, by rw [e3]; exact e4, ?_⟩
           rw [e3]; exact e5
+
+
+/-! ## Error kinds of the body -/
+
+theorem quoteCore_error_kind (l : Lang) (s : Bytes) (e : QErr) (h : quoteCore l s = .error e) :
+    (e.kind = .null ∧ s.contains 0x00 = true) ∨
+    (e.kind = .posix ∧ langIn l langPOSIX = true ∧ ∃ t ∈ runes s, nonPrint t.r = true) ∨
+    (e.kind = .mksh ∧ langIn l langMksh = true ∧ langIn l langPOSIX = false ∧
+      s.contains 0x00 = false ∧ ∃ t ∈ runes s, t.r > 0xFFFD ∧ isPrint t.r = false) := by
+  have hok := runes_ok s
+  by_cases hs : s = []
+  · subst hs; simp [quoteCore] at h
+  unfold quoteCore at h
+  simp only [hs, ↓reduceIte] at h
+  cases hsc : scan l (runes s) 0 false false with
+  | error e' =>
+    rw [hsc] at h; cases h
+    rcases scan_error l _ _ _ _ e hsc with ⟨a, t, m, b⟩ | ⟨a, a', t, m, b⟩
+    · exact Or.inl ⟨a, (contains_zero_iff s).mpr ⟨t, m, b⟩⟩
+    · exact Or.inr (Or.inl ⟨a, a', t, m, b⟩)
+  | ok r =>
+    obtain ⟨sc, np⟩ := r
+    rw [hsc] at h; simp only at h
+    obtain ⟨i1, _, i3⟩ := scan_ok l _ _ _ _ _ _ hsc
+    by_cases hb : (!sc && !np && !isKeyword s) = true
+    · simp only [hb, ↓reduceIte] at h; cases h
+    · simp only [hb, Bool.false_eq_true, ↓reduceIte] at h
+      cases hnp : np with
+      | false =>
+        rw [hnp] at h; simp only [Bool.false_eq_true, ↓reduceIte] at h
+        split at h <;> cases h
+      | true =>
+        rw [hnp] at h i3; simp only [↓reduceIte] at h
+        cases hd : dollarBody l (runes s) 0 false with
+        | ok body => rw [hd] at h; cases h
+        | error e' =>
+          rw [hd] at h; cases h
+          obtain ⟨a, b, t, m, c⟩ := dollar_error l _ _ _ e hok hd
+          simp only [Bool.false_or] at i3
+          obtain ⟨t0, m0, hn0⟩ := List.any_eq_true.mp i3.symm
+          have hposix : langIn l langPOSIX = false := by
+            cases hp : langIn l langPOSIX
+            · rfl
+            · have := (i1 t0 m0).2 hp; rw [this] at hn0; cases hn0
+          have hz : s.contains 0x00 = false := by
+            cases hc : s.contains 0x00
+            · rfl
+            · obtain ⟨t', m', h'⟩ := (contains_zero_iff s).mp hc
+              exact absurd h' (i1 t' m').1
+          exact Or.inr (Or.inr ⟨a, b, hposix, hz, t, m, c⟩)
 
 
 end ShVerif.C13
